@@ -288,14 +288,17 @@ theorem plan_traceql_correct (o : Oracles) (ao : AggOracles) (hp : PermInv ao) (
 
 /-- the statement for `{}` — every trace with a span inside the window, read from the span table (`AttrlessConditionPlanner`,
     after fix 373aa96): the same specification with "described" = has a span-table row inside the window, recency = the newest
-    such row. Compiled, **not proved** (its sub-queries scan the span table, not the index; the `whole` stream judges every real
-    `{}` statement against it). -/
+    such row, selected spans = some 100 of its rows inside the window. The order of `index_grouped` is not claimed here (it is by
+    the newest of the ≤ 100 kept spans; the statement re-orders by trace start anyway). Compiled, **not proved** (its sub-queries
+    scan the span table, not the index; the `whole` stream judges every real `{}` statement against it). -/
 def plan_all_traces_full : Prop :=
   ∀ (o : Oracles) (ao : AggOracles) (c : Ctx) (d : TraceDb) (op : ScriptOp) (S : Sel),
     plan c [(⟨none, none⟩, op)] = .ok S → 0 < c.limit → TablesDistinct c →
     ∃ K : List (Bytes × List Bytes),
-      IsTopN (allTraceRec c d) (fun tr => ∃ s ∈ d.spansT, s.traceId = tr ∧ spanInWindow c s = true) c.limit.toNat (K.map (·.1)) ∧
-      (∀ k ∈ K, k.2 ≠ [] ∧ k.2.length ≤ 100 ∧ ∀ v ∈ k.2, v ∈ allTraceSpans c d k.1) ∧
+      (K.map (·.1)).Nodup ∧ K.length ≤ c.limit.toNat ∧
+      (∀ k ∈ K, (∃ s ∈ d.spansT, s.traceId = k.1 ∧ spanInWindow c s = true) ∧ k.2 ≠ [] ∧ k.2.length ≤ 100 ∧ ∀ v ∈ k.2, v ∈ allTraceSpans c d k.1) ∧
+      (∀ m, (∃ s ∈ d.spansT, s.traceId = m ∧ spanInWindow c s = true) → m ∉ K.map (·.1) →
+        K.length = c.limit.toNat ∧ ∀ k ∈ K, allTraceRec c d m ≤ allTraceRec c d k.1) ∧
       (evalStmtJ o ao (d.toDb c) S).map (fun r => r.take 5) = (assemble K d.spansT (some c.limit.toNat)).map TraceOut.row
 
 /-! ## portions -/
